@@ -1607,6 +1607,34 @@ async fn emit_event(
     let _ = event_log.append(&event);
 }
 
+/// Verification export of the private run-time compile entry point, flattened to JSON.
+#[cfg(rip_verif)]
+pub(crate) fn verif_compile_context_for_run(
+    continuities: &ContinuityStore,
+    event_log: &EventLog,
+    snapshot_dir: &Path,
+    run: &ContinuityRunLink,
+    run_session_id: &str,
+) -> Result<Value, String> {
+    let outcome =
+        compile_context_bundle_for_run(continuities, event_log, snapshot_dir, run, run_session_id)?;
+    Ok(serde_json::json!({
+        "decision": {
+            "compiler_id": outcome.decision.compiler_id,
+            "compiler_strategy": outcome.decision.compiler_strategy,
+            "limits": outcome.decision.limits,
+            "compaction_checkpoint": outcome.decision.compaction_checkpoint,
+            "compaction_checkpoints": outcome.decision.compaction_checkpoints,
+            "resets": outcome.decision.resets,
+            "reason": outcome.decision.reason,
+        },
+        "bundle_artifact_id": outcome.compiled.bundle_artifact_id,
+        "from_seq": outcome.compiled.from_seq,
+        "from_message_id": outcome.compiled.from_message_id,
+        "items": outcome.compiled.items.iter().map(|item| item.value().clone()).collect::<Vec<_>>(),
+    }))
+}
+
 /// Verification driver: feeds `chunks` through the real `OpenResponsesSsePipe` exactly the way
 /// the streaming request loop does (push_bytes until the terminal marker, then finish) and returns
 /// the emitted frames and the final seq.
